@@ -63,7 +63,11 @@ func genDesc(r *vc.Rand, name string) (*bridgedesc.Target, vc.Val) {
 	t := &bridgedesc.Target{Name: name}
 	svcs := vc.L{}
 	used := map[string]bool{}
-	for i := 0; i < 1+r.Intn(3); i++ {
+	count := 1 + r.Intn(3)
+	if r.Chance(15) {
+		count = 0 // a target that stops serving anything (its claims and its listing must go)
+	}
+	for i := 0; i < count; i++ {
 		sn := r.Pick(svcPool)
 		if used[sn] {
 			continue
@@ -135,6 +139,36 @@ func trailerStatus(body []byte) int {
 	return -1
 }
 
+// scripted claim histories that run first (op kinds: 0 watch, 1 update with the listed services, 2 close), each probed
+// for pkg.A as gRPC: a losing claimant that stops listing the service must not inherit it later, hand-over to the
+// remaining claimant, release by an update, re-claim after release
+type sop struct {
+	kind   int
+	target string
+	svcs   []string
+}
+
+var scripted = [][]sop{
+	{{0, "t1", nil}, {0, "t2", nil}, {1, "t1", []string{"pkg.A"}}, {1, "t2", []string{"pkg.A"}}, {1, "t2", []string{}}, {2, "t1", nil}},
+	{{0, "t1", nil}, {0, "t2", nil}, {1, "t1", []string{"pkg.A"}}, {1, "t2", []string{"pkg.A"}}, {1, "t2", []string{}}, {1, "t1", []string{"pkg.B"}}},
+	{{0, "t1", nil}, {0, "t2", nil}, {1, "t1", []string{"pkg.A"}}, {1, "t2", []string{"pkg.A"}}, {2, "t1", nil}},
+	{{0, "t1", nil}, {0, "t2", nil}, {1, "t1", []string{"pkg.A"}}, {1, "t2", []string{"pkg.A", "pkg.B"}}, {1, "t1", []string{}}},
+	{{0, "t1", nil}, {0, "t2", nil}, {0, "t3", nil}, {1, "t2", []string{"pkg.A"}}, {1, "t1", []string{"pkg.A"}}, {1, "t3", []string{"pkg.A"}}, {1, "t2", []string{"x"}}, {1, "t1", []string{}}},
+	{{0, "t1", nil}, {1, "t1", []string{"pkg.A"}}, {1, "t1", []string{}}, {0, "t2", nil}, {1, "t2", []string{"pkg.A"}}, {1, "t1", []string{"pkg.A"}}, {2, "t2", nil}},
+}
+
+func scriptedDesc(name string, svcs []string) (*bridgedesc.Target, vc.Val) {
+	t := &bridgedesc.Target{Name: name}
+	sv := vc.L{}
+	for _, sn := range svcs {
+		t.Services = append(t.Services, bridgedesc.Service{Name: protoreflect.FullName(sn)})
+		sv = append(sv, vc.L{sn, vc.L{}})
+	}
+	id := nextID
+	nextID++
+	return t, vc.L{id, sv}
+}
+
 func main() {
 	w := vc.NewWriter(os.Args[1])
 	defer w.Close()
@@ -148,7 +182,29 @@ func main() {
 		ws := map[string]*routing.ServiceRouterWatcher{}
 		ops := vc.L{}
 		updates := 0
-		for j := 0; j < 1+rr.Intn(6); j++ {
+		var script []sop
+		if i < 4*len(scripted) {
+			script = scripted[i%len(scripted)]
+			for _, o := range script {
+				switch o.kind {
+				case 0:
+					ops = append(ops, vc.L{0, o.target})
+					if wt, err := sr.Watch(o.target); err == nil {
+						ws[o.target] = wt
+					}
+				case 1:
+					t, v := scriptedDesc(o.target, o.svcs)
+					ops = append(ops, vc.L{1, o.target, v})
+					ws[o.target].UpdateDesc(t)
+					updates++
+				default:
+					ops = append(ops, vc.L{2, o.target})
+					ws[o.target].Close()
+					delete(ws, o.target)
+				}
+			}
+		}
+		for j := 0; j < 1+rr.Intn(9) && script == nil; j++ {
 			name := rr.Pick(targets)
 			switch k := rr.Intn(10); {
 			case k < 3 || ws[name] == nil:
@@ -169,7 +225,9 @@ func main() {
 		}
 		name := genName(rr)
 		kind := rr.Intn(4)
-		if i%50 == 49 {
+		if script != nil {
+			name, kind = []string{"/pkg.A/Get", "pkg.A/Get", "/pkg.B/M", "/x/M"}[(i/len(scripted))%4], []int{0, 1, 0, 2}[(i/len(scripted))%4]
+		} else if i%50 == 49 {
 			kind = 3
 		} else if kind == 3 {
 			kind = rr.Intn(3)
